@@ -311,10 +311,60 @@ func (s *Server) Start(ctx context.Context) error {
 	case <-ctx.Done():
 		s.logger.Info("Stopping DHCP server")
 		server.Close()
+		// The sessions end with the server: close their accounting records
+		s.stopAllAccounting(radius.TerminateCauseNASReboot)
 		return nil
 	case err := <-errCh:
 		return err
 	}
+}
+
+// stopAllAccounting sends an Accounting-Stop for every session that is still
+// open (shutdown). It returns when all of them were answered or after a
+// bounded wait.
+func (s *Server) stopAllAccounting(terminateCause uint32) {
+	if s.radiusClient == nil {
+		return
+	}
+
+	s.leasesMu.RLock()
+	open := make([]*Lease, 0, len(s.leases))
+	for _, lease := range s.leases {
+		if lease != nil && lease.SessionID != "" {
+			open = append(open, lease)
+		}
+	}
+	s.leasesMu.RUnlock()
+
+	ctx, cancel := context.WithTimeout(context.Background(), 10*time.Second)
+	defer cancel()
+
+	var wg sync.WaitGroup
+	for _, lease := range open {
+		wg.Add(1)
+		go func(lease *Lease) {
+			defer wg.Done()
+			err := s.radiusClient.SendAccounting(ctx, &radius.AcctRequest{
+				SessionID:      lease.SessionID,
+				Username:       lease.MAC.String(),
+				MAC:            lease.MAC,
+				FramedIP:       lease.IP,
+				StatusType:     radius.AcctStatusStop,
+				InputOctets:    lease.InputBytes,
+				OutputOctets:   lease.OutputBytes,
+				SessionTime:    uint32(time.Since(lease.SessionStart).Seconds()),
+				TerminateCause: terminateCause,
+				Class:          lease.Class,
+			})
+			if err != nil {
+				s.logger.Warn("Failed to send RADIUS Accounting-Stop at shutdown",
+					zap.String("session_id", lease.SessionID),
+					zap.Error(err),
+				)
+			}
+		}(lease)
+	}
+	wg.Wait()
 }
 
 // handleDHCP handles incoming DHCP packets (slow path)
